@@ -1,6 +1,7 @@
 //! `drive <mode> <jobs.ndjson> <trace.ndjson>`: run jobs against real salsa, record traces.
 mod items;
 mod log;
+mod par;
 mod seq;
 mod types;
 
@@ -33,6 +34,14 @@ fn main() {
         };
         match mode {
             "seq" => seq::run_job(&job),
+            "par" => {
+                if !par::run_job(&job) {
+                    // a hang: the process cannot recover its threads; stop here (the trace tells)
+                    log::close();
+                    eprintln!("drive: hang in job {}", job.id);
+                    std::process::exit(0);
+                }
+            }
             m => {
                 eprintln!("unknown mode {m}");
                 std::process::exit(2);
@@ -51,6 +60,23 @@ fn install_sink() {
         match e.name {
             "intern_rev_recorded" => {
                 ev!("e": "irec", "cap": e.args[0], "rev": e.args[1]);
+            }
+            "dg_block" | "dg_cycle" | "dg_unblock" | "dg_wake" | "dg_transfer" | "sync_claim" | "sync_claim_transferred"
+            | "sync_release" | "sync_release_self" | "sync_transfer" | "dg_undo_transfer" | "dg_unblock_transferred"
+            | "dg_unblock_key" => {
+                let k = e.key.map(items::raw_key).unwrap_or_default();
+                let k2 = e.key2.map(items::raw_key).unwrap_or_default();
+                // thread-number arguments are translated to the job's logical thread indices
+                let (a0, a1) = match e.name {
+                    "dg_block" | "dg_cycle" | "dg_transfer" => (par::logical(e.args[0]), par::logical(e.args[1])),
+                    "dg_unblock" | "dg_wake" | "sync_claim" | "sync_claim_transferred" | "sync_release" | "sync_release_self"
+                    | "sync_transfer" => (par::logical(e.args[0]), e.args[1] as i64),
+                    _ => (e.args[0] as i64, e.args[1] as i64),
+                };
+                ev!("e": "hk", "name": e.name, "k": k, "k2": k2, "a0": a0, "a1": a1, "a2": e.args[2], "a3": e.args[3], "text": e.text);
+            }
+            "writer_proceeds" => {
+                ev!("e": "wproc", "clones": e.args[0]);
             }
             name => {
                 let k = e.key.map(|k| items::abs_key_global(k)).unwrap_or_default();
